@@ -538,7 +538,7 @@ def impl_pinv(case):
     rec = {}
 
     def fake_solve(Lm, b, method=None, options={}):
-        rec["A_minus_L"] = np.array(Lm.to_array()) - L
+        rec["A"] = np.array(Lm.to_array())
         rec["Q"] = np.array(b.to_array())
         rec["method"] = method
         return _data.Dense(LIQ.copy())
@@ -1080,7 +1080,7 @@ def run(ctx):
 
     def oracle_all(budget_systems, r2):
         kinds = ["generic", "zero_first", "generic", "rates", "ladder", "pump_top", "zero_first"]
-        dimsl = [[2], [3], [3], [2, 2]] if not quick else [[2], [3], [3]]
+        dimsl = [[2], [3], [3], [2, 2]]
         cfgs = oracle_configs(quick, r2)
         fmts = ["csr", "csr", "dense", "dia"]
         done = 0
@@ -1274,7 +1274,13 @@ def run(ctx):
             mR = pmat(v)
             n = int(np.prod(c["dims"]))
             shift = 1j * (c["w"] if c["w"] else 1e-15)
-            okA = np.array_equal(rec["A_minus_L"], shift * np.eye(n * n))
+            Lc = np.array([[complex(a, b) for a, b in row] for row in c["L"]])
+            okA = np.array_equal(rec["A"], Lc + shift * np.eye(n * n))
+            if c["w"] is None and c["method"] == "splu":
+                # CSR arithmetic tidies part of the 1e-15j regularisation away
+                # (auto_tidyup, C01 territory); it is a numerical device [NUM]:
+                # only require that the matrix is L up to 2e-15 on the diagonal
+                okA = bool(np.abs(rec["A"] - Lc).max() <= 2e-15)
             if not np.array_equal(mR, rec["R"]) or not okA or rec["dims"] != [[c["dims"]] * 2] * 2:
                 corr_violation("corr:pseudo_inverse", "projector-assembly",
                               "model and pseudo_inverse disagree (Q, R = Q @ LIQ or the shift)",
@@ -1345,8 +1351,11 @@ def replay(ctx, payload):
             ctx.violation(site, payload["signature"], "reproduced: %s" % bad, d)
     elif site == "steadystate:power":
         witness_power_maxiter(ctx)
-    elif site == "pseudo_inverse" and "system" in d and isinstance(d["system"], str):
+    elif site == "pseudo_inverse" and isinstance(d.get("system"), str):
         witness_pinv_default(ctx)
+    elif site == "pseudo_inverse" and isinstance(d.get("system"), dict):
+        stats = {"pinv_runs": 0, "pinv_ok": 0}
+        oracle_pinv(ctx, d["system"], stats, random.Random(0))
     elif site.startswith("corr:steadystate_direct"):
         c = d["case"]
         rec = impl_direct(c)
